@@ -80,7 +80,7 @@ pub fn run() -> i32 {
         "C19",
         "main",
         "exploration",
-        "3 sample sets; presentations = framing {plain, one gzip member, two members split at EVERY byte offset, one member per line, ragged members} x line width {every width 1..=max+1, 100000} x {LF, CRLF} x {upper, lower, alternating case}; reader level: the (sample, contig, sequence) stream of MultiFileIterator and of GenomeIO::open must be identical for every presentation (complete product for framing x {3 widths} and width x line-end x case); CLI level: create + sha256 of the archive (byte-identical across framing / width / line ends / case), listset + getset identical for one PanSN file vs one file per sample; file-name rule (x.fa / x.fasta / x.fa.gz / dotted names). non-trivial = presentations that differ from the canonical one",
+        "4 sample sets (one with sample#haplotype names that are string prefixes of their neighbours); presentations = framing {plain, one gzip member, two members split at EVERY byte offset, one member per line, ragged members} x line width {every width 1..=max+1, 100000} x {LF, CRLF} x {upper, lower, alternating case}; reader level: the (sample, contig, sequence) stream of MultiFileIterator and of GenomeIO::open must be identical for every presentation (complete product for framing x {3 widths} and width x line-end x case); CLI level: create + sha256 of the archive (byte-identical across framing / width / line ends / case), listset + getset identical for one PanSN file vs one file per sample; file-name rule (x.fa / x.fasta / x.fa.gz / dotted names). non-trivial = presentations that differ from the canonical one",
     );
     quiet_panics();
     let th = rep.thorough();
@@ -98,7 +98,17 @@ pub fn run() -> i32 {
             (format!("smp{i}#{}", i % 2), vec![(format!("smp{i}#{}#chr1 desc", i % 2), a), (format!("smp{i}#{}#chr2", i % 2), b)])
         }).collect()
     };
-    let sets = vec![mk_set(&mut rng, 2, false), mk_set(&mut rng, 3, true), mk_set(&mut rng, 1, false)];
+    let mut sets = vec![mk_set(&mut rng, 2, false), mk_set(&mut rng, 3, true), mk_set(&mut rng, 1, false)];
+    // a set whose adjacent sample#haplotype names are string prefixes of one another
+    {
+        let mut rel = mk_set(&mut rng, 5, false);
+        for (i, nm) in ["HG#1", "HG#10", "HG#100", "HG1#1", "HG1#1x"].iter().enumerate() {
+            let old = rel[i].0.clone();
+            rel[i].0 = nm.to_string();
+            for c in rel[i].1.iter_mut() { c.0 = c.0.replace(&old, nm); }
+        }
+        sets.push(rel);
+    }
     let canon = Pres { width: 60, crlf: false, case: 0 };
     // ================= reader level =================
     for (si, set) in sets.iter().enumerate() {
@@ -110,6 +120,11 @@ pub fn run() -> i32 {
         // expected from the harness side: records in order with upper-cased codes
         let want: Vec<(String, Vec<u8>)> = all_recs.clone();
         let got: Vec<(String, Vec<u8>)> = reference.iter().map(|x| (x.1.clone(), x.2.clone())).collect();
+        let want_samples: Vec<String> = set.iter().flat_map(|s| s.1.iter().map(move |_| s.0.clone())).collect();
+        let got_samples: Vec<String> = reference.iter().map(|x| x.0.clone()).collect();
+        if got_samples != want_samples {
+            rep.violation("C19:reader_sample_attribution", "the reader attributes records of a PanSN file to other samples than their sample#haplotype prefix", json!({"set": si, "want": want_samples, "got": got_samples}));
+        }
         if got != want {
             rep.violation("C19:reader_differs_from_input", "the reader's record stream differs from the records written", json!({"set": si}));
         }
